@@ -713,8 +713,9 @@ def handler(kind, v, lay, field, flat, src, body):
             fail("%s: range initialiser" % kind)
         lo, hi = [dyadic(float(x[1]), False) for x in lim]
         return ".fpoint %d %s %s %s" % (fi, lean_fl(*lo), lean_fl(*hi), "true" if m.group(5) == "len" else "false")
-    if kind == "axis" and t == AXIS_INTERVALS:
-        return ".intervals %d %d %d" % (field("intv", "intervals"), field("format", "intervals"), lay.enums["TransformLg"])
+    if kind == "axis" and t in (AXIS_INTERVALS, AXIS_INTERVALS_KEEP):
+        return ".intervals %d %d %d %s" % (field("intv", "intervals"), field("format", "intervals"), lay.enums["TransformLg"],
+                                          "true" if t == AXIS_INTERVALS else "false")
     if kind == "graph" and t == GRAPH_ALIGN:
         if lay.enums.get("AlignBegin") != 1 or lay.enums.get("AlignEnd") != 2 or lay.enums.get("AlignZero") != 3:
             fail("graph: alignment flag values changed")
@@ -759,6 +760,20 @@ AXIS_INTERVALS = norm("""
 		if ((len = src->_vptr->convert(src, 'y', &ax->intv)) >= 0) {
 			ax->format &= ~MPT_ENUM(TransformLg);
 			if (!len) { ax->intv = def_axis.intv; }
+			return 0;
+		}
+		if (src->_vptr->convert(src, 's', &l) < 0 || !l || strncasecmp(l, "log", 3)) { return len; }
+		ax->format |= MPT_ENUM(TransformLg);
+		ax->intv = 0;
+		return 0;
+""")
+# variant: the "no value" result of the count conversion returns before the log flag is cleared
+AXIS_INTERVALS_KEEP = norm("""
+		const char *l;
+		if (!src) { ax->intv = def_axis.intv; ax->format &= ~MPT_ENUM(TransformLg); return 0; }
+		if ((len = src->_vptr->convert(src, 'y', &ax->intv)) >= 0) {
+			if (!len) { ax->intv = def_axis.intv; return 0; }
+			ax->format &= ~MPT_ENUM(TransformLg);
 			return 0;
 		}
 		if (src->_vptr->convert(src, 's', &l) < 0 || !l || strncasecmp(l, "log", 3)) { return len; }
